@@ -175,7 +175,9 @@ def oracle_atom(exp: Expect, tbl, z, a, na, real_data=True):
         chk("density", rho, got_rho, 0)
         n = P.observe(lambda: el.number_density)
         d = P.observe(lambda: el.interatomic_distance)
-        if isinstance(rho, Fraction) and isinstance(m, Fraction) and m != 0:
+        if isinstance(rho, Fraction) and isinstance(m, Fraction) and m != 0 and rho == 0:
+            chk("number_density", Fraction(0), n, 0)       # a zero density: d divides by zero
+        elif isinstance(rho, Fraction) and isinstance(m, Fraction) and m != 0:
             chk("number_density", rho * na / m, n, 1e-13)
             if P.isfinite(n) and P.isfinite(d) and n > 0:
                 if not close(n * d ** 3, 1e24, rel=1e-12):
@@ -337,7 +339,7 @@ def gen_unc_text(rng, kinds, quirk=False):
     v = gen_number(rng)
     dec = len(v.split(".")[1]) if "." in v else 0
     r = rng.random()
-    if r < 0.12:
+    if r < 0.12 or (v.endswith(".") and not quirk):       # '69.(6)' is the quirk class too
         u = "%d.%d" % (rng.randint(0, 3), rng.randint(0, 9))
     elif quirk and r < 0.3:
         u = "%d" % rng.randint(10 ** dec, 10 ** (dec + 1))       # more digits than decimals
@@ -636,9 +638,9 @@ def run(run: Run) -> int:
     P.drop_private(priv)
     run.exhaustive = True
     # parse_uncertainty on its own
-    check_parse_uncertainty(run, parse_uncertainty, 300 if run.tier == "quick" else 20000)
+    check_parse_uncertainty(run, parse_uncertainty, 300 if run.tier == "quick" else 50000)
     # 4. generated tables
-    n = 40 if run.tier == "quick" else 2500
+    n = 40 if run.tier == "quick" else 8000
     cases = [gen_tables(run.rng, symbols, dens_rows) for _ in range(n)]
     for i in range(0, n, 250):
         run_generated(run, cases[i:i + 250], symbols, nm, nmu, na, mass, density)
@@ -684,7 +686,8 @@ def replay(data) -> int:
             print(" real code :", [P.tok(x) for x in obs.get((z, a), [])])
             lines = table_lines(src["isotope_mass"], src["element_mass"], src["isotope_abundance"], dens_rows)
             rep = run_driver("loader", lines + ["mass_load"] + query_lines([(z, a)]))
-            print(" model     :", [P.tok(P.model_val(t)) for t in rep[-1].split()])
+            toks = rep[-1].split()
+            print(" model     :", [P.tok(P.model_val(t)) for t in (toks[1:] if a else toks)])
     for d in r.disagreements:
         print(" disagreement:", d["input"].get("what", ""), "z=%s a=%s" % (d["input"].get("z"), d["input"].get("a")),
               "model", d["model"], "impl", d["impl"])
